@@ -74,6 +74,15 @@ fn emit_rune_parse(out: &mut Streams, dist: &mut Dist, s: &str) {
 fn emit_spaced_parse(out: &mut Streams, dist: &mut Dist, s: &str) {
   let back = ask(out, &format!("spaced.parse {}", hextext(s)));
   dist.hit(&class("spaced", &back));
+  if let Some(v) = back.strip_prefix("ok ") {
+    // the accepted string, its rune and spacers, and what they print as
+    let (n, sp) = v.split_once(' ').unwrap();
+    let printed = SpacedRune::new(Rune(n.parse().unwrap()), sp.parse().unwrap()).to_string();
+    out.emit(
+      &format!("spaced.oracle.strrt {} {n} {sp} {}", hextext(s), hextext(&printed)),
+      "true",
+    );
+  }
 }
 
 fn emit_spaced(out: &mut Streams, dist: &mut Dist, n: u128, sp: u32) {
